@@ -972,8 +972,20 @@ def _reset_module_state():
 
 
 # ====================================================================== line granularity
-_MON = {"on": False, "codes": set()}
+_MON = {"on": False, "codes": set(), "instr": False}
 _TOOL = 3
+
+
+def _on_instr(code, offset):
+    """granularity "instr": every bytecode of the library is a scheduling point (the preemption model of a
+    free-threaded or pre-3.2 interpreter; finer than the GIL's switch points of CPython 3.12)."""
+    s = SCHED
+    if s is None or s.aborting or s.granularity != "instr":
+        return
+    rec = s.by_ident.get(_thread.get_ident())
+    if rec is None or rec.state != "runnable" or rec.in_point:
+        return
+    s.point("line")
 
 
 def _on_line(code, line):
@@ -986,20 +998,28 @@ def _on_line(code, line):
     s.point("line")
 
 
-def enable_line_points():
+def enable_line_points(instr=False):
     import types
     mon = sys.monitoring
     if not _MON["on"]:
         mon.use_tool_id(_TOOL, "mxv")
         mon.register_callback(_TOOL, mon.events.LINE, _on_line)
+        mon.register_callback(_TOOL, mon.events.INSTRUCTION, _on_instr)
         _MON["on"] = True
+    if instr != _MON["instr"]:
+        _MON["instr"] = instr
+        for co in _MON["codes"]:
+            try:
+                mon.set_local_events(_TOOL, co, mon.events.LINE | (mon.events.INSTRUCTION if instr else 0))
+            except Exception:
+                pass
 
     def walk(co):
         if co in _MON["codes"]:
             return
         _MON["codes"].add(co)
         try:
-            mon.set_local_events(_TOOL, co, mon.events.LINE)
+            mon.set_local_events(_TOOL, co, mon.events.LINE | (mon.events.INSTRUCTION if _MON["instr"] else 0))
         except Exception:
             pass
         for c in co.co_consts:
@@ -1047,8 +1067,10 @@ def run_execution(main, strategy, granularity="sync", visible=None, max_steps=50
     """Run `main()` as the controlled main thread under `strategy`.  Returns a Result."""
     global SCHED
     install()
-    if granularity == "line":
-        enable_line_points()
+    if granularity in ("line", "instr"):
+        enable_line_points(instr=(granularity == "instr"))
+    elif _MON["instr"]:
+        enable_line_points(instr=False)
     gc.collect()
     gc.disable()
     sched = Scheduler(strategy, max_steps=max_steps, horizon=horizon, granularity=granularity, visible=visible)
